@@ -258,3 +258,24 @@ package sonic
 //@   ensures [all] result1 == nil ==> int(result0) == old(b.ri - b.si)
 //@   ensures [saved] forall j :: 0 <= j && j < b.si ==> b.data[j] == old(b.data[j])
 //@   ensures [rest] forall j :: b.si <= j && j < b.wi ==> b.data[j] == old(b.data[j+int(result0)])
+
+// Completion closures of the asynchronous transfers (C02, C19, C17): the bytes the transport
+// reports are accounted in the buffer exactly once, then the caller's callback runs once.
+//@ func fnparam:(*ByteBuffer).*.cb
+//@   trusted
+
+//@ func (*ByteBuffer).AsyncReadFrom$1
+//@   prop C02, C09, C19
+//@   requires b != nil && bbInv(b) && cb != nil && (err == nil ==> 0 <= n && n <= cap(b.data) - b.wi)
+//@   // a successful read of n bytes extends the write area by exactly n; an error changes nothing
+//@   assert call cb: arg0 == err && arg1 == n && bbInv(b) && b.si == old(b.si) && b.ri == old(b.ri) &&
+//@          b.wi == old(b.wi) + ((err == nil) ? n : 0)
+//@   consumes cb
+
+//@ func (*ByteBuffer).AsyncWriteTo$1
+//@   prop C02, C09, C19, C17
+//@   requires b != nil && bbInv(b) && cb != nil
+//@   // the bytes written are consumed exactly once, before the callback runs; an error consumes nothing
+//@   assert call cb: arg0 == err && arg1 == n && bbInv(b) && b.si == old(b.si) &&
+//@          b.ri == old(b.ri) - ((err == nil) ? max(0, min(n, old(b.ri - b.si))) : 0)
+//@   consumes cb
